@@ -340,6 +340,21 @@ func (a *ownAnalysis) lvalKind(e ast.Expr, depth int) ownKind {
 				a.sawNil = true
 				return ownFresh
 			}
+		} else if fld := FieldOfSelector(a.info, ce.Fun); fld != nil {
+			// a call through a function-typed field that only ever holds fresh-returning functions
+			if fs := a.c.funcFieldValues(fld); len(fs) > 0 {
+				all := true
+				for _, f := range fs {
+					if !a.freshFns[f] {
+						if _, ok := a.c.headerWrappers()[f]; !ok {
+							all = false
+						}
+					}
+				}
+				if all {
+					return ownFresh
+				}
+			}
 		}
 		return ownBorrowed
 	}
@@ -502,6 +517,12 @@ func (a *ownAnalysis) sliceProvOf(e ast.Expr, depth int) *sliceProv {
 		sig := a.u.Obj.Type().(*types.Signature)
 		for i := 0; i < sig.Params().Len(); i++ {
 			if sig.Params().At(i) == o {
+				// the buffer of a Map.Entries implementation is the caller's scratch space
+				// (contract decided at the call sites by MAP.entries-buffer)
+				if i == 0 && a.c.mapEntriesMethods()[originOf(a.u.Obj)] && a.c.entriesBufferContract() {
+					p.fresh = true
+					return p
+				}
 				p.borrowed, p.clamped, p.unknown = true, false, true
 				return p
 			}
@@ -1277,6 +1298,15 @@ func exprShape(info *types.Info, e ast.Expr) string {
 			if _, isPkg := info.Uses[shapeIdentOf(x.X)].(*types.PkgName); isPkg {
 				return shapeIdentOf(x.X).Name + "." + x.Sel.Name
 			}
+			// fields and methods answer to the names they had on the audited tree
+			if sel := info.Selections[x]; sel != nil {
+				switch o := sel.Obj().(type) {
+				case *types.Var:
+					return sh(x.X) + "." + canonFieldName(o)
+				case *types.Func:
+					return sh(x.X) + "." + shortName(o)
+				}
+			}
 			return sh(x.X) + "." + x.Sel.Name
 		case *ast.IndexExpr:
 			return sh(x.X) + "[" + bound(x.Index) + "]"
@@ -1631,7 +1661,13 @@ func (a *ownAnalysis) cowIdiom(x ast.Expr, site ast.Node) bool {
 				continue
 			}
 			condOK := false
-			switch c := ast.Unparen(is.Cond).(type) {
+			cond := ast.Unparen(is.Cond)
+			if id, ok := cond.(*ast.Ident); ok {
+				if d, ok := boolLocalUse[id]; ok {
+					cond = ast.Unparen(d) // `shares := x.sealed; if shares {…}`
+				}
+			}
+			switch c := cond.(type) {
 			case *ast.SelectorExpr:
 				condOK = FieldOfSelector(a.info, c) == sealedFld && identObj(a.info, c.X) == o
 			case *ast.CallExpr:
